@@ -82,6 +82,9 @@ class C09(core.Prop):
         for t in TEMPLATES:
             for ll in ((1,) if tier == 'quick' else (1, 2)):
                 out.append({'mode': 'tmpl', 'text': t, 'lablen': ll})
+                if ll == 1:
+                    # the same string after other use of the library in the same process (pipeline.prelude)
+                    out.append({'mode': 'tmpl', 'text': t, 'lablen': ll, 'prelude': True})
         # all-atom sampler outputs (the exploration of C16, judged here by the valence clauses only)
         from .c16 import CONFIGS, PROP as C16P
         for sh in C16P.shapes(tier):
@@ -129,6 +132,8 @@ class C09(core.Prop):
         if shape['mode'] == 'sampler':
             from .c16 import PROP as C16P
             return C16P.execute(M, shape['sampler'], inp)
+        if shape.get('prelude'):
+            pl.prelude(M)
         return core.guard(pl.run_resolver, M, inp['text'])
 
     def oracle(self, shape, inp, obs):
